@@ -772,6 +772,7 @@ coap_add_option_internal(coap_pdu_t *pdu, coap_option_num_t number, size_t len,
                          const uint8_t *data) {
   size_t optsize;
   coap_opt_t *opt;
+  int hop_limit_added = 0;
 
   assert(pdu);
 
@@ -797,19 +798,24 @@ coap_add_option_internal(coap_pdu_t *pdu, coap_option_num_t number, size_t len,
     if (coap_check_option(pdu, COAP_OPTION_HOP_LIMIT, &opt_iter) == NULL) {
       size_t hop_limit = COAP_OPTION_HOP_LIMIT;
 
-      coap_insert_option(pdu, COAP_OPTION_HOP_LIMIT, 1, (uint8_t *)&hop_limit);
+      if (coap_insert_option(pdu, COAP_OPTION_HOP_LIMIT, 1,
+                             (uint8_t *)&hop_limit))
+        hop_limit_added = 1;
     }
   }
 
   if (number < pdu->max_opt) {
     coap_log_debug("coap_add_option: options are not in correct order\n");
-    return coap_insert_option(pdu, number, len, data);
+    optsize = coap_insert_option(pdu, number, len, data);
+    if (!optsize)
+      goto fail;
+    return optsize;
   }
 
   optsize = coap_opt_encode_size(number - pdu->max_opt, len);
   if (!coap_pdu_check_resize(pdu,
                              pdu->used_size + optsize))
-    return 0;
+    goto fail;
 
   if (pdu->data) {
     /* include option delimiter */
@@ -828,13 +834,19 @@ coap_add_option_internal(coap_pdu_t *pdu, coap_option_num_t number, size_t len,
   if (!optsize) {
     coap_log_warn("coap_add_option: cannot add option\n");
     /* error */
-    return 0;
+    goto fail;
   } else {
     pdu->max_opt = number;
     pdu->used_size += optsize;
   }
 
   return optsize;
+
+fail:
+  /* A refused option must not leave its implicit Hop-Limit behind */
+  if (hop_limit_added)
+    coap_remove_option(pdu, COAP_OPTION_HOP_LIMIT);
+  return 0;
 }
 
 int
